@@ -1,5 +1,6 @@
 import NurbsVerif.Lemmas.InsertModel
 import NurbsVerif.Lemmas.InsertAll
+import NurbsVerif.Lemmas.InsertSurf
 import NurbsVerif.Model.Shape
 import Mathlib.Data.List.Perm.Basic
 
@@ -54,6 +55,43 @@ theorem insert_sequence_preserves (p d : ℕ) (reqs : List (K × ℕ × ℕ)) (s
     (curvePoint p (fnOf (reqs.foldl (insStep p) st).1) (reqs.foldl (insStep p) st).2 u).getD j 0
       = (curvePoint p (fnOf st.1) st.2 u).getD j 0 :=
   insert_sequence_preserves_curve p d reqs st hwf hok u hlo hhi j
+
+/-- **Surfaces, v direction**: the net produced by the model of `operations.insert_knot` (every row –
+    iso-curve `u = const` – goes through A5.1, rows are concatenated again) gives the same surface
+    point as the original net, for every degree pair, size pair, multiplicity, count and parameters. -/
+theorem insert_v_preserves_surface_point (pu pv : ℕ) (Uu : ℕ → K) (Uvl : List K) (su sv : ℕ) (P : List (List K))
+    (ub u v : K) (r s k ku κ κ' d j : ℕ) (hP : NetOk d P) (hlenP : P.length = su * sv)
+    (hm : Monotone (fnOf Uvl)) (hlen : k + 1 < Uvl.length)
+    (hk1 : fnOf Uvl k ≤ ub) (hk2 : ub < fnOf Uvl (k+1))
+    (hmult : ∀ x, k - s < x → x ≤ k → fnOf Uvl x = ub)
+    (hκ : fnOf Uvl κ < fnOf Uvl (κ+1))
+    (hκ' : fnOf (knotInsertionKv Uvl ub k r) κ' < fnOf (knotInsertionKv Uvl ub k r) (κ'+1))
+    (hr1 : 1 ≤ r) (hrs : r + s ≤ pv) (hpk : pv ≤ k) (hksv : k < sv) (hpκ : pv ≤ κ) (hκsv : κ < sv)
+    (hpu : pu ≤ ku) (hku : ku < su)
+    (hcase : (κ' = κ ∧ κ ≤ k) ∨ (κ' = κ + r ∧ k ≤ κ)) :
+    (surfacePointAt pu pv Uu (fnOf (knotInsertionKv Uvl ub k r)) (sv + r)
+        (mapSurfV su sv P (fun c => knotInsertion pv (fnOf Uvl) c ub r s k)).1 ku κ' u v).getD j 0
+      = (surfacePointAt pu pv Uu (fnOf Uvl) sv P ku κ u v).getD j 0 :=
+  insertV_preserves_surface_point pu pv Uu Uvl su sv P ub u v r s k ku κ κ' d j hP hlenP hm hlen hk1 hk2 hmult hκ hκ'
+    hr1 hrs hpk hksv hpκ hκsv hpu hku hcase
+
+/-- **Surfaces, u direction**: every column (iso-curve `v = const`) goes through A5.1 and the columns
+    are scattered back into the layout `v + sv·u`; the surface point is unchanged. -/
+theorem insert_u_preserves_surface_point (pu pv : ℕ) (Uul : List K) (Uv : ℕ → K) (su sv : ℕ) (P : List (List K))
+    (ub u v : K) (r s k kv κ κ' d j : ℕ) (hP : NetOk d P) (hlenP : P.length = su * sv)
+    (hm : Monotone (fnOf Uul)) (hlen : k + 1 < Uul.length)
+    (hk1 : fnOf Uul k ≤ ub) (hk2 : ub < fnOf Uul (k+1))
+    (hmult : ∀ x, k - s < x → x ≤ k → fnOf Uul x = ub)
+    (hκ : fnOf Uul κ < fnOf Uul (κ+1))
+    (hκ' : fnOf (knotInsertionKv Uul ub k r) κ' < fnOf (knotInsertionKv Uul ub k r) (κ'+1))
+    (hr1 : 1 ≤ r) (hrs : r + s ≤ pu) (hpk : pu ≤ k) (hksu : k < su) (hpκ : pu ≤ κ) (hκsu : κ < su)
+    (hpv : pv ≤ kv) (hkv : kv < sv)
+    (hcase : (κ' = κ ∧ κ ≤ k) ∨ (κ' = κ + r ∧ k ≤ κ)) :
+    (surfacePointAt pu pv (fnOf (knotInsertionKv Uul ub k r)) Uv sv
+        (mapSurfU su sv P (fun c => knotInsertion pu (fnOf Uul) c ub r s k)).1 κ' kv u v).getD j 0
+      = (surfacePointAt pu pv (fnOf Uul) Uv sv P κ kv u v).getD j 0 :=
+  insertU_preserves_surface_point pu pv Uul Uv su sv P ub u v r s k kv κ κ' d j hP hlenP hm hlen hk1 hk2 hmult hκ hκ'
+    hr1 hrs hpk hksu hpκ hκsu hpv hkv hcase
 
 /-- The knot vector gains exactly `r` entries … -/
 theorem insertKv_length (U : List K) (u : K) (k r : ℕ) : (knotInsertionKv U u k r).length = U.length + r := by
